@@ -612,6 +612,20 @@ func c07_2(c *core.Ctx, p *core.Prog) {
 
 // ---------------- C07.4 ----------------
 
+func namedResult(fd *ast.FuncDecl, name string) bool {
+	if fd.Type.Results == nil {
+		return false
+	}
+	for _, f := range fd.Type.Results.List {
+		for _, n := range f.Names {
+			if n.Name == name {
+				return true
+			}
+		}
+	}
+	return false
+}
+
 func c07_4(c *core.Ctx, p *core.Prog) {
 	fn := p.Func(pkgArrowRecord, "Consumer", "Consume")
 	if fn == nil {
@@ -688,11 +702,29 @@ func c07_4(c *core.Ctx, p *core.Prog) {
 		if !ok {
 			return
 		}
-		mc, ok := d.Call.Value.(*ssa.MakeClosure)
-		if !ok {
-			return
+		var clo *ssa.Function
+		if mc, ok := d.Call.Value.(*ssa.MakeClosure); ok {
+			clo, _ = mc.Fn.(*ssa.Function)
+		} else if h := d.Call.StaticCallee(); h != nil && h.Pkg == fn.Pkg {
+			// a named helper that is handed the addresses of the named results (records and error)
+			gotErr, gotRecs := false, false
+			for _, a := range d.Call.Args {
+				al, ok := a.(*ssa.Alloc)
+				if !ok || al.Parent() != fn {
+					continue
+				}
+				el := al.Type().(*types.Pointer).Elem()
+				if isErr(el) && namedResult(fd, al.Comment) {
+					gotErr = true
+				}
+				if _, isSl := el.Underlying().(*types.Slice); isSl && recsObj != nil && al.Comment == recsObj.Name() {
+					gotRecs = true
+				}
+			}
+			if gotErr && gotRecs {
+				clo = h
+			}
 		}
-		clo, _ := mc.Fn.(*ssa.Function)
 		if clo == nil {
 			return
 		}
